@@ -17,25 +17,4 @@ def run(ctx):
     # rejectable operations outside the container model: whole-value / children-list assignment, datatype change,
     # invalid leaves, absent or foreign children, through elements alone and inside their parents
     from . import atomic
-    from ..common import pmap, judge
-    versions = ["2.5"] if ctx.tier == "quick" else ["2.3", "2.5", "2.6", "2.8"]
-    events = []
-    for part in pmap(atomic.events_for, versions):
-        for e in part:
-            if "harness_note" in e:
-                ctx.notes.append(e["harness_note"])
-            else:
-                events.append(e)
-    for i, e in enumerate(events):
-        e["id"] = i + 1
-    failed, trivial = judge(ctx, "AtomicTrace", "AtomicTrace.cfg", events)
-    byid = {e["id"]: e for e in events}
-    ctx.evaluations += len(events)
-    ctx.extra["atomic_probes"] = len(events)
-    ctx.extra["atomic_probes_rejected"] = len(events) - len(trivial)
-    for e in events:
-        if e["id"] not in trivial:
-            ctx.nontrivial(("atomic", e["target"], e["op"], e["lvl"], e["v"]))
-    for i, clause in sorted(failed.items()):
-        e = byid[i]
-        ctx.fail(signature(e, clause), {"clause": clause, "event": {k: (("".join(chr(c) for c in e[k])) if k.startswith(("enc_", "root_")) else e[k]) for k in e}})
+    atomic.run_probes(ctx, atomic.ATOMIC_CLAUSES)
